@@ -15,16 +15,21 @@ READER_PRIM = {
 INT_BYTES = {"u8": 1, "i8": 1, "u16": 2, "i16": 2, "u32": 4, "i32": 4, "u64": 8, "i64": 8}
 
 
-def flag_names(e):
-    """names of the bitflags constants or-ed together in an expression"""
+def flag_names(e, resolve=None):
+    """names of the bitflags constants or-ed together in an expression; `resolve(local path node)` may map a let-bound local to
+    its initialiser"""
     e = peel(e)
     if not isinstance(e, dict):
         return set()
     k = e.get("k")
+    if k == "Path" and e.get("res") == "local" and resolve is not None:
+        init = resolve(e)
+        if init is not None:
+            return flag_names(init, resolve)
     if k == "Path" and e.get("res") == "def":
         return {e["path"].split("::")[-1]}
     if k == "Binary" and e.get("op") in ("BitOr",):
-        return flag_names(e["l"]) | flag_names(e["r"])
+        return flag_names(e["l"], resolve) | flag_names(e["r"], resolve)
     if k == "MethodCall" and e.get("method") in ("union",):
         return flag_names(e["recv"]) | set().union(*[flag_names(a) for a in e["args"]])
     if k in ("Call", "MethodCall") and (callee(e) or "").endswith("::empty"):
